@@ -40,6 +40,16 @@ func prefixFor(set *ymodel.Set, from *ymodel.Module, ns string) (string, bool) {
 // case, and unwritten input/output of actions, are left out (outside the
 // claims).
 func Targets(set *ymodel.Set, trees map[string]*yref.Tree, from *ymodel.Module) []Target {
+	return targets(set, trees, from, false)
+}
+
+// AllNodes is Targets including implicit case nodes and what lies below them
+// (for path lookup, which sees the tree after implicit cases were inserted).
+func AllNodes(set *ymodel.Set, trees map[string]*yref.Tree, from *ymodel.Module) []Target {
+	return targets(set, trees, from, true)
+}
+
+func targets(set *ymodel.Set, trees map[string]*yref.Tree, from *ymodel.Module, implicit bool) []Target {
 	var out []Target
 	var mods []string
 	if o := set.Owner(from); o != nil {
@@ -55,7 +65,7 @@ func Targets(set *ymodel.Set, trees map[string]*yref.Tree, from *ymodel.Module) 
 		}
 		var walk func(x *yref.XNode, path string, inOp bool, depth int)
 		visit := func(c *yref.XNode, name, path string, inOp bool, depth int) {
-			if c.Implicit {
+			if c.Implicit && !implicit {
 				return
 			}
 			p, ok := prefixFor(set, from, c.NS)
